@@ -42,6 +42,18 @@ func init() {
 		},
 		run: runC18,
 	}
+	for _, p := range []string{"C04", "C08", "C09", "C10"} {
+		p := p
+		worlds[p] = worldDef{
+			gen: func(seed uint64, tier string) (*Scenario, *Outcome) {
+				if p == "C04" && seed&0xffffff < 3 {
+					return genC04Sweep(seed), nil
+				}
+				return genHist(p, seed, tier), nil
+			},
+			run: runHist,
+		}
+	}
 }
 
 // ViolationReport is one (shrunk) violation found by a worker.
